@@ -613,7 +613,7 @@ fn main() {
     let mut rng = Rng::new(args.seed);
     let mut jobs: Vec<Job> = vec![];
     corpus(&mut jobs);
-    let (tables, nreal, per_kind, budget_s, threads) = if args.thorough() { (500, 6, 4, 1500u64, 12) } else { (90, 4, 2, 70u64, 12) };
+    let (tables, nreal, per_kind, budget_s, threads) = if args.thorough() { (500, 6, 4, 420u64, 12) } else { (90, 4, 2, 70u64, 12) };
     for _ in 0..tables {
         let n = *rng.pick(&[1usize, 2, 3, 5, 8, 9, 16, 17, 33, 70]);
         let extra = 2 + rng.below(3) as usize;
